@@ -1696,7 +1696,18 @@ class Graph:
             end_time=end_time,
             rate=rate,
         )
-
+        for other in self.migrations:
+            if (
+                other.source == migration.source
+                and other.dest == migration.dest
+                and other.start_time > migration.end_time
+                and migration.start_time > other.end_time
+            ):
+                raise ValueError(
+                    f"multiple migrations defined for source={source}, dest={dest} "
+                    f"between start_time={min(other.start_time, migration.start_time)}, "
+                    f"end_time={max(other.end_time, migration.end_time)}"
+                )
         self.migrations.append(migration)
         return migration
 
